@@ -144,13 +144,13 @@ def gen_op(rng, wild: bool) -> str:
             ps.append(e + "=" + v)
         return "E15:" + ",".join(ps)
     if k < 74:
-        return f"A3:{rng.choice([128, 128, 128, 0, 0, 1, 255])}:" + weighted(rng, ALIDS, [5, 5, 2, 1 if wild else 0])
+        return f"A3:{rng.choice([128, 128, 128, 128, 128, 0, 0, 1, 255])}:" + weighted(rng, ALIDS, [5, 5, 2, 1 if wild else 0])
     if k < 80:
         return "A5:" + ",".join(weighted(rng, ALIDS, [5, 5, 1 if wild else 0, 1 if wild else 0]) for _ in range(rng.choice([0, 1, 2, 3])))
     if k < 84:
         return "A7"
     if k < 92:
-        return rng.choice(["AS:", "AS:", "AC:"]) + weighted(rng, ALIDS[:3], [5, 5, 1])
+        return rng.choice(["AS:", "AS:", "AC:", "ASN:", "ACN:"]) + weighted(rng, ALIDS[:3], [5, 5, 1])
     j = rng.below(3)
     if j == 0:
         return "Vn30=n" + str(rng.range(0, 9))
@@ -234,7 +234,7 @@ class Run:
                 sv.value = int(num) / (1 << int(kk))
             return "-"
         head, *rest = op.split(":")
-        ids = [self.item(x) for x in rest[0].split(",")] if rest and rest[0] and head not in ("E15", "A3", "AS", "AC") else []
+        ids = [self.item(x) for x in rest[0].split(",")] if rest and rest[0] and head not in ("E15", "A3", "AS", "AC", "ASN", "ACN") else []
         if head in ("S3", "E13"):
             s, f, body = eq.request(*((1, 3) if head == "S3" else (2, 13)), ids, self.direct)
             return "x" if f == 0 else "v[" + ",".join(cval_item(x) for x in body[1]) + "]"
@@ -263,12 +263,21 @@ class Run:
         if head == "A7":
             s, f, body = eq.request(5, 7, None, self.direct)
             return "x" if f == 0 else "l[" + self.rows(body) + "]"
-        if head in ("AS", "AC"):
+        if head in ("AS", "AC", "ASN", "ACN"):
+            # ASN / ACN: fault input -- the host does not answer the S5F1 of this call; T3 is short for it
             eq.c.primaries.clear()
+            quiet = head.endswith("N")
+            t3 = h.settings.timeouts.t3
+            if quiet:
+                eq.c.mute.add((5, 1))
+                h.settings.timeouts.t3 = 0.05
             try:
-                (h.set_alarm if head == "AS" else h.clear_alarm)(pykey(rest[0]))
+                (h.set_alarm if head[1] == "S" else h.clear_alarm)(pykey(rest[0]))
             except ValueError:
                 return "!"
+            finally:
+                eq.c.mute.discard((5, 1))
+                h.settings.timeouts.t3 = t3
             THREADS.join_all()
             sent = [gemlib.decode_body(p[2]) for p in eq.c.primaries if p[:2] == (5, 1)]
             return "e[" + ";".join(f"{b[1][0][1][0]}~{cid_item(b[1][1])}~{hexs(b[1][2][1])}" for b in sent) + "]"
@@ -358,7 +367,9 @@ class Ref:
                 self.al[rest[1]][0] = int(rest[0]) == 128
                 return "a0"
             return None
-        if head in ("AS", "AC"):
+        if head in ("AS", "AC", "ASN", "ACN"):
+            # the equipment-side change happened whatever the host answers: same expectation with and without an S5F2
+            head = head[:2]
             i = rest[0]
             if i not in self.al:
                 return "!"
@@ -516,6 +527,9 @@ def main():
             ["A3:128:n7", "AS:n7", "AS:n7", "S3:n1004,n1005", "A5:", "A7", "AC:n7", "AC:n7", "A3:0:n7", "AS:n7", "A5:n7,n8,n7"],
             ["E15:n2=i0", "S3:n1001", "E15:n2=i2", "S3:n1001,n1001", "E15:n2=f3/1", "S3:", "S11:", "E15:n1=f21/1", "E13:n1,n2"],
             ["E15:n30=f3/1", "E13:n30"],                                                     # the finding's witness
+            # the host does not answer the S5F1 (T3 expires): the alarm is latched all the same, no second report
+            ["A3:128:n7", "ASN:n7", "A5:n7", "A7", "S3:n1005,n1004", "AS:n7", "ACN:n7", "A5:", "S3:n1005", "AC:n7", "AS:n7",
+             "A3:128:n8", "ASN:n8", "ASN:n8", "A7"],
         ]
         corpus += [
             ["E15:n32=i0", "E15:n32=i1", "E15:n32=i-100", "E15:n32=i-101", "E15:n30=i7,n32=i5", "E13:n32,n30"],   # a maximum of exactly 0
